@@ -173,6 +173,34 @@ def sorted_pairs(ctx, idx, d, r):
                 why = "sorted(zip(...)) does not pair the raw values with NormalValues (raw first): %s" % K.src(node)
         elif isinstance(arg, Lst):
             why = "`%s` sorts one list on its own: raw and normal values are no longer paired" % K.src(node)
+    if not ok:
+        # table form: T = numpy.column_stack((raw, normal)); T = T[numpy.lexsort((T[:, 1], T[:, 0]))]  (or argsort of column 0):
+        # whole rows are permuted, so every raw value keeps its normal value.  numpy.sort(T, axis=0) sorts each column on its own.
+        tables = {}
+        for n in own_nodes(fi.node):
+            if isinstance(n, ast.Assign) and len(n.targets) == 1 and isinstance(n.targets[0], ast.Name) and isinstance(n.value, ast.Call) \
+                    and (idx.qualname(fi.module, n.value.func, fi) or "") in ("numpy.column_stack", "numpy.stack", "numpy.transpose", "numpy.array") \
+                    and n.value.args and isinstance(n.value.args[0], (ast.Tuple, ast.List)) and len(n.value.args[0].elts) == 2:
+                second = K.src(K.expand(fi, n.value.args[0].elts[1]))
+                if "NormalValues" in second or "normal" in K.src(n.value.args[0].elts[1]).lower():
+                    tables[n.targets[0].id] = n
+        for n in own_nodes(fi.node):
+            if not (isinstance(n, ast.Assign) and len(n.targets) == 1 and isinstance(n.targets[0], ast.Name) and n.targets[0].id in tables):
+                continue
+            T = n.targets[0].id
+            v = n.value
+            if isinstance(v, ast.Call) and (idx.qualname(fi.module, v.func, fi) or "") in ("numpy.sort", "numpy.ma.sort") and v.args and K.src(v.args[0]) == T:
+                why = "`%s` sorts each column of the (raw, normal) table on its own: the k-th smallest raw value is paired with the k-th smallest normal value, whatever the user paired it with" % K.src(v)[:60]
+            if isinstance(v, ast.Subscript) and K.src(v.value) == T and isinstance(v.slice, ast.Call):
+                q = idx.qualname(fi.module, v.slice.func, fi) or ""
+                col0 = "%s[:, 0]" % T
+                if q == "numpy.lexsort" and v.slice.args and isinstance(v.slice.args[0], (ast.Tuple, ast.List)) and v.slice.args[0].elts and K.src(v.slice.args[0].elts[-1]) == col0:
+                    ok, why = True, "rows of the (raw, normal) table permuted by lexsort with the raw column as the primary key"
+                elif q in ("numpy.argsort",) and v.slice.args and K.src(v.slice.args[0]) == col0:
+                    ok, why = True, "rows of the (raw, normal) table permuted by argsort of the raw column"
+        if ok:
+            ctx.ob("C08.b", con, d.module.rel, fi.node.lineno, ok, why)
+            return
     if ok:
         # the sorted value must be kept, never rebound, and the unsorted lists must not be read again except for len()/set() checks
         name = None
@@ -387,11 +415,12 @@ def _eval_dedupe(idx, fi, node):
     raw_name = normal_name = None
     start = None
     for i, st in enumerate(body):
-        if isinstance(st, ast.Assign) and len(st.targets) == 1 and isinstance(st.targets[0], ast.Name):
+        tn_ = [t_.id for t_ in st.targets if isinstance(t_, ast.Name)] if isinstance(st, ast.Assign) else []
+        if len(tn_) == 1:  # (`raw_values = kwargs["RawValues"] = [...]` binds the local and stores the same list)
             if isinstance(st.value, ast.List) and len(st.value.elts) == 5:
-                raw_name, start = st.targets[0].id, max(start or 0, i + 1)
+                raw_name, start = tn_[0], max(start or 0, i + 1)
             elif "NormalValues" in K.src(st.value) and not isinstance(st.value, (ast.Dict, ast.Call)) or (isinstance(st.value, ast.Call) and K.src(st.value.func) in ("list", "copy.copy", "copy") and "NormalValues" in K.src(st.value)):
-                normal_name, start = st.targets[0].id, max(start or 0, i + 1)
+                normal_name, start = tn_[0], max(start or 0, i + 1)
     if raw_name is None or normal_name is None:
         return "the five control points and the copy of NormalValues are not bound to two local lists; the form used is outside this rule"
     first_line = body[start].lineno if start < len(body) else node.lineno
